@@ -5,6 +5,7 @@ import (
 	"os"
 	"path/filepath"
 	"sync"
+	"syscall"
 	"testing"
 	"time"
 )
@@ -13,11 +14,24 @@ import (
 
 const c03Deadline = 10 * time.Second // typical cost of a call is far below a millisecond
 
+// procCPU returns the CPU time consumed by this process so far. The watchdog fires only
+// when the current call has been running for longer than the deadline on the wall clock
+// AND the process has burnt that much CPU time meanwhile: a process that is merely starved
+// on a busy machine does not look like a hang.
+func procCPU() time.Duration {
+	var ru syscall.Rusage
+	if syscall.Getrusage(syscall.RUSAGE_SELF, &ru) != nil {
+		return 0
+	}
+	return time.Duration(ru.Utime.Nano() + ru.Stime.Nano())
+}
+
 var (
 	c03Mu      sync.Mutex
 	c03Started time.Time
 	c03Current []byte
 	c03Prop    string
+	c03CPU     time.Duration
 	c03Once    sync.Once
 )
 
@@ -26,7 +40,7 @@ func watchdogArm(prop string, c any) {
 	c03Once.Do(c03Watchdog)
 	raw, _ := json.Marshal(c)
 	c03Mu.Lock()
-	c03Current, c03Started, c03Prop = raw, time.Now(), prop
+	c03Current, c03Started, c03Prop, c03CPU = raw, time.Now(), prop, procCPU()
 	c03Mu.Unlock()
 }
 
@@ -44,9 +58,9 @@ func c03Watchdog() {
 		for {
 			time.Sleep(500 * time.Millisecond)
 			c03Mu.Lock()
-			cur, since, prop := c03Current, time.Since(c03Started), c03Prop
+			cur, since, prop, cpu0 := c03Current, time.Since(c03Started), c03Prop, c03CPU
 			c03Mu.Unlock()
-			if cur != nil && since > c03Deadline {
+			if cur != nil && since > c03Deadline && procCPU()-cpu0 > c03Deadline*9/10 {
 				if outDir != "" {
 					b, _ := json.MarshalIndent(failureFile{Property: prop, Msg: "the call did not return within " + c03Deadline.String() + " (hang)", Case: cur}, "", " ")
 					_ = os.WriteFile(filepath.Join(outDir, "failure."+shardTag+".json"), b, 0o644)
@@ -88,7 +102,7 @@ func init() {
 	defProp("C03",
 		"rapid-generated single API calls over a grammar of every exported operation (boolean functions and wrappers 64/D, engine objects incl. AddPath, scale-func variants and PolyTree executes, InflatePaths64/D, ClipperOffset incl. two groups and a delta callback, NewGroup, Minkowski 64/D, RectClip paths/lines 64/D and their objects, Simplify*, TrimCollinear*, StripDuplicates, areas, bounds, PointInPolygon, Path2ContainsPath1, Ellipse*, scale/convert/translate helpers, Rect/Point methods, the PolyPath node API) with hostile paths (nil, empty, 1-2 points, repeated points, collinear, horizontal, spikes, pool coordinates up to 2^29), hostile scalars (0, +-0.49, +-0.5, 1e-300, +-1e12), every enum value 0..5 and 255, empty / inverted / zero-width rectangles, precisions incl. out-of-range ones; oracle: no panic except ErrPrecisionRange for a precision outside [-8,8], every Execute* returns true, the call returns within 10 s (in-process watchdog saves the journalled case); non-trivial = an argument path has >= 3 distinct consecutive points",
 		[]string{"resource-shaped preconditions: round joins/caps are asked for at most ~1e5 arc steps (arc tolerance >= |delta|*1e-5), ellipse radii <= 1e9, scaled float inputs stay within 2^30",
-			"the 10 s deadline uses the wall clock; typical calls take microseconds"},
+			"the 10 s deadline needs 10 s of wall clock and 9 s of process CPU time since the call started (a starved process is not a hang); typical calls take microseconds"},
 		drawAPICall, judgeC03)
 }
 
